@@ -477,13 +477,6 @@ func checkInitGradientValidation(c *Ctx, r *rend, rule string) {
 		// the in-loop returns of false
 		var falseGuards []*sym.Term
 		var loopHeader = -1
-		// the stop loop lives in initGradient itself or in a helper it was moved into: use the frame that has it
-		for _, f := range append([]*sym.Frame{fr}, collectFrames(in.Events)...) {
-			if len(f.Headers()) == 1 {
-				fr = f
-				break
-			}
-		}
 		isFalse := func(t *sym.Term) bool {
 			if b, ok := t.BoolVal(); ok && !b {
 				return true
@@ -499,6 +492,21 @@ func checkInitGradientValidation(c *Ctx, r *rend, rule string) {
 			}
 			return false
 		}
+		// the stop loop is the loop the failing returns sit in - in initGradient itself or in a helper it was moved
+		// into; other loops of the function (e.g. one that reads the matrix registers) are none of this rule's business
+		stopLoops := map[sym.LoopRef]bool{}
+		for _, ev := range in.Events {
+			if ev.Kind == "return" && len(ev.Args) > 0 && ev.Args[0] != nil && isFalse(ev.Args[0]) && ev.Site != nil {
+				if h, ok := ev.Frame.ExitedLoop(ev.Site.Block().Index); ok {
+					stopLoops[sym.LoopRef{Frame: ev.Frame, Header: h}] = true
+				}
+			}
+		}
+		if len(stopLoops) == 1 {
+			for lr := range stopLoops {
+				fr, loopHeader = lr.Frame, lr.Header
+			}
+		}
 		for _, ev := range in.Events {
 			if ev.Kind != "return" || ev.Frame != fr || len(ev.Args) == 0 || ev.Args[0] == nil {
 				continue
@@ -507,11 +515,8 @@ func checkInitGradientValidation(c *Ctx, r *rend, rule string) {
 				falseGuards = append(falseGuards, ev.Guard)
 			}
 		}
-		if hs := fr.Headers(); len(hs) == 1 {
-			loopHeader = hs[0]
-		}
 		if loopHeader < 0 || len(falseGuards) == 0 {
-			R.Bad(key+"#validation", pos, "one stop loop that returns false on an invalid stop", fmt.Sprintf("%d loops, %d failing returns", len(fr.Headers()), len(falseGuards)))
+			R.Bad(key+"#validation", pos, "one stop loop that returns false on an invalid stop", fmt.Sprintf("%d loops with failing returns, %d failing returns", len(stopLoops), len(falseGuards)))
 		} else {
 			li, ok := fr.Loop(loopHeader)
 			if !ok {
